@@ -2,7 +2,10 @@
 // failures before/after a test, run either by TestRegistry::runAllTests (StringBufferTestOutput) or by
 // CommandLineTestRunner(ac, av, &registry).runAllTestsMain() (console captured through PlatformSpecificFPuts).
 // Scenario:  <cli> <rethrow> <filter> <runign> <repeat> <ntests> { <ignored> <sel> <line> <setup> <body> <teardown> <pre> <post> }
-//            stmt list = <n> { :n | :c | :x <file> <line> | :j <file> <line> | :s | :o } ; pre/post = <n> { <line> }
+//            stmt list = <n> { <base> | :r <cond> <k> <base> <base> } ; base = :n | :c | :x <file> <line> | :j <file> <line> | :s | :o
+//            pre/post = <n> { <line> | :r <cond> <k> <line> } ; cond = :eq | :ne | :lt | :ge
+//            ":r c k A B" behaves as A in the runs of this test whose number (0,1,2,... = static counter in the test) satisfies c k, as B in
+//            the others; a conditional plugin line is reported only in the matching runs (static counter in the plugin).
 // Observation: <escaped> <ret|~> <nreps> { <nev> {test phase idx depth} <nfail> {test file line kind} <nafter> {depth ctx_ok}
 //              (~ | :s ok nfail|~ tests run checks ignored filtered) (~ | :k tests run checks fail filtered ignored) }
 #include "hlib.h"
@@ -25,11 +28,19 @@ using namespace hl;
 
 extern int PlatformSpecificVerifJumpDepth();
 
-struct Stmt { char kind; int file; size_t line; };
+struct Base { char kind; int file; size_t line; };
+struct Cond { char op; unsigned long long k; };              // op 0 = unconditional, else 'e' == , 'n' != , 'l' < , 'g' >=
+static bool holds(const Cond& c, unsigned long long run)
+{
+    switch (c.op) { case 0: return true; case 'e': return run == c.k; case 'n': return run != c.k; case 'l': return run < c.k; default: return run >= c.k; }
+}
+struct Stmt { Cond cond; Base a, b; };
+struct PLine { Cond cond; size_t line; };
 struct TestDef {
     int idx; bool ignored, sel; size_t line;
-    std::vector<Stmt> ph[3]; std::vector<size_t> pre, post;
+    std::vector<Stmt> ph[3]; std::vector<PLine> pre, post;
     std::string group, name;
+    unsigned long long created, preCalls, postCalls;         // the static state the scripted test / the plugin keep across repetitions
 };
 struct Entry { char kind; int a, b, c, d; std::string text; };   // 'E' event, 'T' text chunk, 'A' after-test mark
 static std::vector<Entry> gLog;
@@ -51,12 +62,12 @@ static void logEvent(int test, int phase, int idx)
     Entry e; e.kind = 'E'; e.a = test; e.b = phase; e.c = idx; e.d = PlatformSpecificVerifJumpDepth(); gLog.push_back(e);
 }
 
-static void execPhase(TestDef* d, int ph)
+static void execPhase(TestDef* d, int ph, unsigned long long run)
 {
     std::vector<Stmt>& v = d->ph[ph];
     for (size_t k = 0; k < v.size(); k++) {
         logEvent(d->idx, ph, (int)k);
-        const Stmt& s = v[k];
+        const Base& s = holds(v[k].cond, run) ? v[k].a : v[k].b;
         snprintf(gMsg, sizeof gMsg, "VM%d.%d.%d", d->idx, ph, (int)k);
         switch (s.kind) {
         case 'n': break;
@@ -74,12 +85,12 @@ static void execPhase(TestDef* d, int ph)
 
 class ScriptedUtest : public Utest {
 public:
-    explicit ScriptedUtest(TestDef* d) : d_(d) {}
-    void setup() CPPUTEST_OVERRIDE { execPhase(d_, 0); }
-    void testBody() CPPUTEST_OVERRIDE { execPhase(d_, 1); }
-    void teardown() CPPUTEST_OVERRIDE { execPhase(d_, 2); }
+    explicit ScriptedUtest(TestDef* d) : d_(d), run_(d->created++) {}     // how many times this test has been created before
+    void setup() CPPUTEST_OVERRIDE { execPhase(d_, 0, run_); }
+    void testBody() CPPUTEST_OVERRIDE { execPhase(d_, 1, run_); }
+    void teardown() CPPUTEST_OVERRIDE { execPhase(d_, 2, run_); }
 private:
-    TestDef* d_;
+    TestDef* d_; unsigned long long run_;
 };
 class ScriptedShell : public UtestShell {
 public:
@@ -99,12 +110,13 @@ static std::map<UtestShell*, TestDef*> gDefOf;
 class FailPlugin : public TestPlugin {
 public:
     FailPlugin() : TestPlugin("VerifFailPlugin") {}
-    void preTestAction(UtestShell& t, TestResult& r) CPPUTEST_OVERRIDE { add(t, r, gDefOf[&t]->pre); }
-    void postTestAction(UtestShell& t, TestResult& r) CPPUTEST_OVERRIDE { add(t, r, gDefOf[&t]->post); }
+    void preTestAction(UtestShell& t, TestResult& r) CPPUTEST_OVERRIDE { TestDef* d = gDefOf[&t]; add(t, r, d->pre, d->preCalls++); }
+    void postTestAction(UtestShell& t, TestResult& r) CPPUTEST_OVERRIDE { TestDef* d = gDefOf[&t]; add(t, r, d->post, d->postCalls++); }
 private:
-    static void add(UtestShell& t, TestResult& r, std::vector<size_t>& lines)
+    static void add(UtestShell& t, TestResult& r, std::vector<PLine>& lines, unsigned long long run)
     {
-        for (size_t k = 0; k < lines.size(); k++) r.addFailure(TestFailure(&t, FILES[2], lines[k], "VP"));
+        for (size_t k = 0; k < lines.size(); k++)
+            if (holds(lines[k].cond, run)) r.addFailure(TestFailure(&t, FILES[2], lines[k].line, "VP"));
     }
 };
 class LoggingOutput : public StringBufferTestOutput {
@@ -176,14 +188,39 @@ static void emitRep(size_t from, size_t to, Out& o, const std::string& counters)
     o << counters;
 }
 
+static Cond readCond(Toks& t)
+{
+    std::string op = t.sym(); Cond c; c.k = t.u();
+    c.op = op == "eq" ? 'e' : op == "ne" ? 'n' : op == "lt" ? 'l' : op == "ge" ? 'g' : '?';
+    if (c.op == '?') { fprintf(stderr, "harness: condition %s\n", op.c_str()); exit(3); }
+    return c;
+}
+static Base readBase(const std::string& kind, Toks& t, bool& needExc)
+{
+    Base s; s.kind = kind[0]; s.file = 0; s.line = 0;
+    if (s.kind == 'x' || s.kind == 'j') { s.file = t.n(); s.line = (size_t)t.u(); if (s.file < 0 || s.file > 1) s.file = 1; }
+    if (s.kind == 's' || s.kind == 'o') needExc = true;
+    return s;
+}
 static void readStmts(Toks& t, std::vector<Stmt>& v, bool& needExc)
 {
     int n = t.n();
     for (int k = 0; k < n; k++) {
-        Stmt s; s.kind = t.sym()[0]; s.file = 0; s.line = 0;
-        if (s.kind == 'x' || s.kind == 'j') { s.file = t.n(); s.line = (size_t)t.u(); if (s.file < 0 || s.file > 1) s.file = 1; }
-        if (s.kind == 's' || s.kind == 'o') needExc = true;
+        Stmt s; s.cond.op = 0; s.cond.k = 0;
+        std::string kind = t.sym();
+        if (kind == "r") { s.cond = readCond(t); s.a = readBase(t.sym(), t, needExc); s.b = readBase(t.sym(), t, needExc); }
+        else { s.a = readBase(kind, t, needExc); s.b = s.a; }
         v.push_back(s);
+    }
+}
+static void readLines(Toks& t, std::vector<PLine>& v)
+{
+    int n = t.n();
+    for (int k = 0; k < n; k++) {
+        PLine p; p.cond.op = 0; p.cond.k = 0;
+        if (t.peek() == ":r") { t.sym(); p.cond = readCond(t); }
+        p.line = (size_t)t.u();
+        v.push_back(p);
     }
 }
 
@@ -198,8 +235,7 @@ int main()
         for (int i = 0; i < nt; i++) {
             TestDef& d = defs[i]; d.idx = i; d.ignored = t.u() != 0; d.sel = t.u() != 0; d.line = (size_t)t.u();
             for (int p = 0; p < 3; p++) readStmts(t, d.ph[p], needExc);
-            int np = t.n(); for (int k = 0; k < np; k++) d.pre.push_back((size_t)t.u());
-            np = t.n(); for (int k = 0; k < np; k++) d.post.push_back((size_t)t.u());
+            readLines(t, d.pre); readLines(t, d.post); d.created = d.preCalls = d.postCalls = 0;
             char b[40]; snprintf(b, sizeof b, "G%d", i / 3); d.group = b;
             snprintf(b, sizeof b, "%s_%d", d.sel ? "sel" : "out", i); d.name = b;
         }
